@@ -196,7 +196,8 @@ Fixpoint fa_first_byte (fuel ffuel : nat) (r : fa) (line_num : nat) : fa * fb_re
           | inl (ln, pos, b) => (r1, FbSome ln pos b)
           | inr (ln, pos, last) =>
               let consumed := pos - 1 - last in
-              let r2 := set_pbyte (set_buf r1 (skipn consumed (buf r1))) (pbyte r1 + consumed) in
+              (* the consumed bytes and lines are remembered in [position]: a later call continues from there *)
+              let r2 := set_pline (set_pbyte (set_buf r1 (skipn consumed (buf r1))) (pbyte r1 + consumed)) (ln - 1) in
               fa_first_byte f ffuel r2 (ln - 1)
           end
       end
@@ -206,7 +207,7 @@ Inductive ires := IOk (b : bool) | IErr (e : fa_err) | IFuel.
 
 (** [init] *)
 Definition fa_init (fuel ffuel : nat) (r : fa) : fa * ires :=
-  let '(r1, fb) := fa_first_byte fuel ffuel r 0 in
+  let '(r1, fb) := fa_first_byte fuel ffuel r (pline r) in
   match fb with
   | FbErr k => (r1, IErr (FaIo k))
   | FbFuel => (r1, IFuel)
@@ -361,7 +362,7 @@ Definition fa_position (r : fa) : option (nat * nat) :=
 Definition fa_seek (ffuel : nat) (r : fa) (line byte_ : nat) : fa * fa_out :=
   let offset := (Z.of_nat byte_ - Z.of_nat (pbyte r))%Z in
   let pos := (Z.of_nat (start r) + offset)%Z in
-  if ((0 <=? pos) && (pos <? Z.of_nat (length (buf r))))%Z then
+  if ((0 <=? pos) && (pos <? Z.of_nat (length (buf r))))%Z && negb (fa_state_eqb (st r) FNew) then     (* a New reader never takes the shortcut: its buffer, if any, is the partial result of a failed first refill *)
     let p := Z.to_nat pos in
     (set_seqpos (set_start (set_spos (set_st (set_pbyte (set_pline r line) byte_) FPositioned) p) p) [],
      OOk)
